@@ -223,3 +223,12 @@ package report
 //@   callsite Graph.SortNodes order: $arg1 == cumSort && $arg2 == visualMode
 //@   mustcall Graph.TrimLowFrequencyEdges final_trim: $arg0 == g when true
 //@   mustcall Graph.TrimLowFrequencyTags final_tags: $arg0 == g when true
+
+// ---- C04 (strengthened after seeded change topproto-ignores-mean-divisor): the proto form of the top report carries,
+// per node, the node's flat and cum *values* (the mean when a divisor is present: FlatValue / CumValue, not the raw sums),
+// scaled from the sample unit to the output unit.
+//@ func printTopProto nosafety
+//@   callsite Scale from_values: ($arg0 == callres("Node.FlatValue", 0) || $arg0 == callres("Node.CumValue", 0)) && $arg1 == o.SampleUnit && $arg2 == o.OutputUnit
+//@   loop 1
+//@     mustcall Node.FlatValue flat_value: $arg0 == n when true
+//@     mustcall Node.CumValue cum_value: $arg0 == n when true
